@@ -284,6 +284,7 @@ func c11OwnerScenario(r *Run, rng *Rng) {
 	q := d.CreateCommandQueue(ctx)
 	k := rng.Range(1, n-1) // boundary between GPU k and GPU k+1
 	desc := fmt.Sprintf("%d GPUs x %d pages; buffer page 0 on the last page of GPU %d, page 1 on the first page of GPU %d", n, pagesPerGPU, k, k+1)
+	var want, got [][2]uint64
 	fault := catch(func() {
 		d.SelectGPU(ctx, k)
 		if pagesPerGPU > 3 {
@@ -300,8 +301,21 @@ func c11OwnerScenario(r *Run, rng *Rng) {
 		} else {
 			r.Count("owner.other-layout")
 		}
-		off := uint64(rng.Pick(0, 0, 64, 4000))
-		l := 2*ps - off
+		off := uint64(rng.Pick(0, 0, 64, 4000, 4095, 1))
+		l := uint64(rng.Pick(int(2*ps-off), int(2*ps-off), int(ps), int(ps-off)+1, 200))
+		if off+l > 2*ps {
+			l = 2*ps - off
+		}
+		// what the copy has to touch: per page, the bytes of [buf+off, buf+off+l) at that page's frame
+		for va := uint64(buf) + off; va < uint64(buf)+off+l; {
+			pg, _ := pt.Find(ctx.VerifPID(), va)
+			n := pg.VAddr + ps - va
+			if rest := uint64(buf) + off + l - va; n > rest {
+				n = rest
+			}
+			want = append(want, [2]uint64{pg.PAddr + (va - pg.VAddr), n})
+			va += n
+		}
 		if rng.Bool() {
 			d.EnqueueMemCopyH2D(q, driver.Ptr(uint64(buf)+off), make([]byte, l))
 		} else {
@@ -323,6 +337,14 @@ func c11OwnerScenario(r *Run, rng *Rng) {
 				default:
 					continue
 				}
+				var ln uint64
+				switch c := m.(type) {
+				case *protocol.MemCopyH2DReq:
+					ln = uint64(len(c.SrcBuffer))
+				case *protocol.MemCopyD2HReq:
+					ln = uint64(len(c.DstBuffer))
+				}
+				got = append(got, [2]uint64{addr, ln})
 				owner := d.VerifDeviceIDByPAddr(addr)
 				r.Checked("dma-owner")
 				r.Count(fmt.Sprintf("owner.req.gpu%d", owner))
@@ -337,6 +359,12 @@ func c11OwnerScenario(r *Run, rng *Rng) {
 		}
 		if q.NumCommand() > 0 {
 			r.Failf("C11.copy.owner-scenario-stuck", desc, "copy did not complete")
+		}
+		// the requests are exactly the per-page pieces of the range: none runs over the end of its
+		// page into the physically next frame (which belongs to another page, here another GPU)
+		r.Checked("dma-pieces")
+		if fmt.Sprint(got) != fmt.Sprint(want) {
+			r.Failf("C11.copy.pieces", desc, "copy of %d bytes at offset %d: requests (physical address, length) %x, the page table gives %x", l, off, got, want)
 		}
 	})
 	if fault != "" {
